@@ -357,6 +357,15 @@ def runOp (st : MState) (op : Json) : E (MState × Json) := do
     match getStoreDefault (stepsOfJson p) src v h with
     | (h', .ok r) => return finish { st with heap := h' } "ok" [] (some r)
     | (h', .error e) => return finishErr { st with heap := h' } (errJ e)
+  | [.str "get_sdc", p, vs] => do
+    -- a callable default: asked exactly once when nothing is found, never otherwise
+    let (h, v) ← decValSpec st vs
+    let asked : Nat := match getMatch (wcx h) (stepsOfJson p h).toArray src false with
+      | .ok none => 1
+      | _ => 0
+    match getStoreDefault (stepsOfJson p) src v h with
+    | (h', .ok r) => return finish { st with heap := h' } "ok" [natJ asked] (some r)
+    | (h', .error e) => return finishErr { st with heap := h' } (errJ e)
   | [.str "h.new", hid, p, k] => do
     let hid ← match hid.getNat? with | .ok n => pure n | .error e => .error e
     let k ← match k.getNat? with | .ok n => pure n | .error e => .error e
@@ -495,6 +504,18 @@ def runOp (st : MState) (op : Json) : E (MState × Json) := do
         | none => return finish { st with views := st.views.filter (·.1 != lid) } "notlist" [] none
       | .ok _ => return finish { st with views := st.views.filter (·.1 != lid) } "notlist" [] none
       | .error e => return finishErr { st with views := st.views.filter (·.1 != lid) } (errJ e)
+  | [.str "l.assign", chain, lid] => do
+    let lid ← getNatJ lid
+    match st.views.lookup lid with
+    | none => return finish st "noview" [] none
+    | some (id, _) =>
+      let (data, p) ← resolveChain st chain
+      match data with
+      | .error e => return finishErr st (errJ e)
+      | .ok d =>
+        match descrSetS (convOf "id") (stepsOfJson p) st.heap d (.ref id) with
+        | (h', .ok _) => return finish { st with heap := h' } "ok" [] none
+        | (h', .error e) => return finishErr { st with heap := h' } (errJ e)
   | .str "l.it.next" :: [itid] => do
     let itid ← getNatJ itid
     match st.iters.lookup itid with
